@@ -9,6 +9,7 @@ import (
 func registerExtra(e *Engine) {
 	I := e.intrinsics
 	registerCompress(e)
+	registerContext(e)
 	registerBigInt(e)
 	registerCrc32(e)
 	// package-level variables of packages whose init is not executed
